@@ -440,3 +440,103 @@ pub fn heap_drive(args: &[String]) {
     }
     w.finish();
 }
+
+// ------------------------------------------------------------------ instruction-level traces (VmInstrTrace)
+const OPS: &[&str] = &["Add", "Sub", "Mul", "Div", "CallNative", "ScalarInt", "ScalarFloat", "ScalarNil", "StringLiteral", "CopyLast", "Exit",
+    "CallFunction", "Equals", "NotEquals", "Less", "LessOrEq", "Pop", "SetGlobalVar", "ReadGlobalVar", "SetLocalVar",
+    "ReadLocalVar", "ClearStack", "Return", "SwapLast", "And", "Or", "Xor", "Not", "Goto", "GotoIfTrue", "GotoIfFalse",
+    "InitTable", "GetProperty", "SetProperty", "Len", "BeginForEach", "ForEach", "FunctionPointer", "NativeFunctionPointer",
+    "NthRow", "AppendTable", "PopTable", "Closure", "SetUpvalue", "ReadUpvalue", "RegisterUpvalue", "CloseUpvalue"];
+
+/// the harness's own decoder: name, length in bytes and the operands the instruction-level model needs
+fn decode_at(bc: &[u8], ip: usize, arity_of: &dyn Fn(u32) -> i64) -> (String, usize, Vec<i64>) {
+    let op = bc.get(ip).copied().unwrap_or(255) as usize;
+    let name = OPS.get(op).copied().unwrap_or("?").to_string();
+    let u32_at = |o: usize| -> i64 {
+        if o + 4 <= bc.len() {
+            u32::from_le_bytes([bc[o], bc[o + 1], bc[o + 2], bc[o + 3]]) as i64
+        } else {
+            -1
+        }
+    };
+    let (width, args): (usize, Vec<i64>) = match name.as_str() {
+        "Goto" | "GotoIfTrue" | "GotoIfFalse" | "SetLocalVar" | "ReadLocalVar" | "SetUpvalue" | "ReadUpvalue" => (4, vec![u32_at(ip + 1)]),
+        // the number of parameters of the host function, when the harness registered it itself (-1: library native)
+        "CallNative" => (4, vec![arity_of(u32_at(ip + 1) as u32)]),
+        "StringLiteral" | "NativeFunctionPointer" | "SetGlobalVar" | "ReadGlobalVar" => (4, vec![0]),
+        "ScalarInt" | "ScalarFloat" => (8, vec![0]),
+        "FunctionPointer" | "Closure" => (8, vec![u32_at(ip + 5)]),
+        "BeginForEach" | "ForEach" => (20, (0..5).map(|k| u32_at(ip + 1 + 4 * k)).collect()),
+        "RegisterUpvalue" => (2, vec![bc.get(ip + 1).copied().unwrap_or(0) as i64, bc.get(ip + 2).copied().unwrap_or(0) as i64]),
+        _ => (0, vec![0]),
+    };
+    (name, 1 + width, args)
+}
+
+fn instr_events(ev: &[Event], bc: &[u8], p: &P) -> Vec<J> {
+    use std::str::FromStr;
+    let mut arities: std::collections::HashMap<u32, i64> = Default::default();
+    for n in p.natives.iter().chain(typed_registry().iter()) {
+        arities.insert(Handle::from_str(&n.name).unwrap().value(), n.arity as i64);
+    }
+    let arity_of = move |h: u32| -> i64 { arities.get(&h).copied().unwrap_or(-1) };
+    let mut res = vec![];
+    for e in ev {
+        match e {
+            Event::Instr { ip, depth, stack_h, call_h, frame_off, .. } => {
+                let (name, n, a) = decode_at(bc, *ip as usize, &arity_of);
+                res.push(json!({"e": "I", "ip": ip, "op": name, "n": n, "a": a, "h": stack_h, "c": call_h, "fo": frame_off, "d": depth}));
+            }
+            Event::RunStart { .. } => res.push(json!({"e": "RunStart"})),
+            Event::RunEnd { ok } => res.push(json!({"e": "RunEnd", "ok": ok})),
+            Event::Reenter { stack_h, call_h } => res.push(json!({"e": "Reenter", "h": stack_h, "c": call_h})),
+            Event::ReenterEnd { stack_h, call_h, ok } => res.push(json!({"e": "ReenterEnd", "h": stack_h, "c": call_h, "ok": ok})),
+            _ => {}
+        }
+    }
+    res
+}
+
+/// instr-drive --profile P --seed S --n N --out FILE [--max-events K]
+pub fn instr_drive(args: &[String]) {
+    let seed = arg_num(args, "--seed", 1);
+    let n = arg_num(args, "--n", 50) as usize;
+    let profile = arg_val(args, "--profile").unwrap_or("calls").to_string();
+    let out = arg_val(args, "--out").expect("--out");
+    let start = arg_num(args, "--start-case", 0) as usize;
+    let append = arg_num(args, "--append", 0) == 1;
+    let max_events = arg_num(args, "--max-events", 4000) as usize;
+    let mut w = TraceWriter::open(out, append, 20_000);
+    for id in start..n {
+        let mut rng = Rng::new(seed.wrapping_mul(7_919_117).wrapping_add(id as u64));
+        let p = Gen::new(&mut rng, Profile::named(&profile)).program();
+        let pj = json!({"id": id, "profile": profile, "prog": p.to_json()});
+        let compiled = match cao_lang::compiler::compile(p.to_module(), None) {
+            Ok(c) => c,
+            Err(_) => continue,
+        };
+        let mut labels: Vec<u32> = compiled.labels.0.iter().map(|(_, l)| l.pos).collect();
+        labels.sort();
+        labels.dedup();
+        w.begin(id, &pj);
+        // a budget keeps the recorded run short; the run may end in Timeout, which the model admits after any instruction
+        match guarded(|| run_with_budget(&p, &compiled, max_events as u64)) {
+            Ok((ev, _, _)) => {
+                // instruction starts according to the harness's own front-to-back decoding
+                let mut starts: Vec<usize> = vec![];
+                let mut q = 0usize;
+                while q < compiled.bytecode.len() {
+                    starts.push(q);
+                    q += decode_at(&compiled.bytecode, q, &|_| -1).1;
+                }
+                w.line(json!({"e": "Prog", "case": id, "profile": profile, "labels": labels, "starts": starts, "end": compiled.bytecode.len() - 1}));
+                for r in instr_events(&ev, &compiled.bytecode, &p) {
+                    w.line(r);
+                }
+                w.end(json!({"e": "Note", "case": id}));
+            }
+            Err(msg) => w.end(json!({"e": "Panic", "case": id, "msg": msg})),
+        }
+    }
+    w.finish();
+}
